@@ -68,6 +68,9 @@ func verifyFunc(P *Program, fi *FuncInfo, fn *ssa.Function) (vc *VC, rs []*Resul
 	if fi != nil && (fi.fc.NoSafety || fi.fc.MayPanic) {
 		vc.nosafety = fi.fc.NoSafety
 	}
+	if fi != nil && fi.fc.NoSafety {
+		vc.assume("nosafety: no crash-freedom obligations (nil, index, slice, type assertion, division) are generated for " + fi.qname() + "; its contract is functional only and assumes the calls in its body return normally")
+	}
 	defer func() {
 		if r := recover(); r != nil {
 			if u, ok := r.(unsupported); ok {
